@@ -57,9 +57,9 @@ func genFresh(t *rapid.T) (*Case, string) {
 			cnt = rapid.IntRange(17, 120).Draw(t, "count")
 		}
 		c.Prods = append(c.Prods, Prod{
-			O:     rapid.IntRange(1, 3).Draw(t, "owner"),
+			O:     genProdOwner(t),
 			Count: cnt,
-			Types: rapid.SliceOfN(rapid.SampledFrom(logTypes), 1, 4).Draw(t, "types"),
+			Types: rapid.SliceOfN(genLogType, 1, 4).Draw(t, "types"),
 			Yield: rapid.SampledFrom([]int{0, 0, 0, 1, 3, 17}).Draw(t, "yield"),
 			FF:    ff,
 		})
